@@ -255,7 +255,8 @@ PROPS = {
                  ["keys_eq_follow", "nil_is_error", "nil_nested_is_error", "empty_slice_no_keys", "missing_field_error", "non_struct_error"]] +
                 [("GcpVerif.Proofs.Sync", "GcpVerif.Sync." + n) for n in ["locksetOK_sound", "c10_lockset"]],
                 harnesses=["pool", "kp"], trusted_base=POOL_TB + [t for t in KP_TB if t not in TB_COMMON]),
-    "C06": pool_prop_plus([], [("GcpVerif.Proofs.Sync", "GcpVerif.Sync.c06_no_self_acquire"), ("GcpVerif.Proofs.Sync", "GcpVerif.Sync.c06_order_acyclic"),
+    "C06": pool_prop_plus([], [("GcpVerif.Proofs.Enforce", "GcpVerif.Enforce." + n) for n in ["loop_done", "loop_fuel", "keepGoing_spins", "enforce_loop_shape"]] +
+                               [("GcpVerif.Proofs.Sync", "GcpVerif.Sync.c06_no_self_acquire"), ("GcpVerif.Proofs.Sync", "GcpVerif.Sync.c06_order_acyclic"),
                                 ("GcpVerif.Proofs.SyncOrder", "GcpVerif.Sync.no_wait_cycle"), ("GcpVerif.Proofs.SyncOrder", "GcpVerif.Sync.c06_order_certified"),
                                 ("GcpVerif.Proofs.SyncOrder", "GcpVerif.Sync.c06_edges_present")], ["wall-clock bounds are observed by the harness watchdog (3 s per call), not proved"]),
     "C07": dict(pool_prop(["disabled_never_refreshes", "response_resets", "isResponse_iff", "stale_call_ignored", "refresh_trigger", "window_exponential", "window_monotone_or_saturated", "refresh_once"], ["window_exponential: k < 63 and unresponsive_detection_ms * 2^k <= MaxInt64 ms; beyond that the window saturates at MaxInt64 ns (window_monotone_or_saturated; K2 was the uint32 wrap, fixed in 6463af4)"]), theorems=pool_thms(["disabled_never_refreshes", "response_resets", "isResponse_iff", "stale_call_ignored", "refresh_trigger", "window_exponential", "window_monotone_or_saturated", "refresh_once"]) +
